@@ -57,34 +57,83 @@ Proof.
     cbn [orb]. rewrite andb_false_r. reflexivity.
 Qed.
 
+(* the FirstOffset / LastOffset placeholders resolved as Conn.Offset reports them *)
+Lemma current_position_resolve cur f l : current_position cur f l = resolve_current cur f l.
+Proof.
+  unfold current_position, conn_offset, resolve_current.
+  destruct (cur =? FirstOffset); [cbn [Z.eqb SeekStart]; lia|].
+  destruct (cur =? LastOffset); [cbn [Z.eqb Pos.eqb SeekStart SeekEnd]; lia|].
+  reflexivity.
+Qed.
+
+Lemma resolve_current_plain cur f l : is_sentinel cur = false -> resolve_current cur f l = cur.
+Proof.
+  unfold is_sentinel, resolve_current. intros H. apply orb_false_iff in H.
+  destruct H as [-> ->]. reflexivity.
+Qed.
+
 Lemma seek_spec : forall cur off whence f l,
   in_i64 cur -> in_i64 off -> valid_offsets f l ->
   let w := seek_whence whence in
   let t := seek_target cur off w f l in
   (w = SeekStart \/ w = SeekAbsolute \/ w = SeekEnd \/ w = SeekCurrent) ->
-  (w = SeekCurrent -> in_i64 (cur + off)) ->
+  (w = SeekCurrent -> in_i64 (current_position cur f l + off)) ->
   seek cur off whence (OffsOk f l) =
-    if seek_dont whence && ((w =? SeekAbsolute) || (w =? SeekCurrent)) then mk_seek (SeekOk t) t 0
+    if seek_unchecked whence cur then mk_seek (SeekOk t) t 0
     else if (w =? SeekAbsolute) && (off =? cur) then mk_seek (SeekOk cur) cur 0
     else if (f <=? t) && (t <=? l) then mk_seek (SeekOk t) t 2
     else mk_seek (SeekErr ErrOffsetOutOfRange) cur 2.
 Proof.
   intros cur off whence f l Hc Ho Hv w t Hw Hcur. subst t.
-  unfold seek. change (Z.ldiff whence SeekDontCheck) with w.
+  unfold seek, seek_unchecked. change (seek_whence whence) with w.
+  change (Z.ldiff whence SeekDontCheck) with w.
   change (Z.testbit whence 30) with (seek_dont whence).
   clearbody w. unfold seek_target, read_offsets.
+  rewrite current_position_resolve in *.
   assert (Hf : - ZM63 <= f + off < ZM64 /\ - ZM63 <= l - off < ZM64)
     by (unfold in_i64, valid_offsets, ZM63, ZM64 in *; lia).
   destruct Hf as [Hfo Hlo].
   destruct (seek_dont whence); destruct Hw as [-> | [-> | [-> | ->]]];
     unfold SeekStart, SeekAbsolute, SeekEnd, SeekCurrent in *;
     cbn [Z.eqb Pos.eqb orb andb negb];
-    try rewrite (wrap64_id (cur + off)) by (apply Hcur; reflexivity);
+    try rewrite (wrap64_id (resolve_current cur f l + off)) by (apply Hcur; reflexivity);
     try reflexivity;
     try (apply seek_check_wrap; assumption).      (* SeekStart, SeekEnd *)
+  - (* SeekCurrent | SeekDontCheck: unchecked unless cur is a placeholder *)
+    destruct (is_sentinel cur) eqn:Es; cbn [negb].
+    + apply range_check_flip.
+    + rewrite <- (resolve_current_plain cur f l Es) at 1 2.
+      rewrite wrap64_id by (apply Hcur; reflexivity). reflexivity.
   - (* SeekAbsolute *)
     destruct (Z.eqb_spec off cur) as [->|Hne]; [reflexivity|]. apply range_check_flip.
   - (* SeekCurrent *) apply range_check_flip.
+Qed.
+
+(* SeekCurrent on a connection still holding a placeholder: relative to the partition's
+   start (FirstOffset) resp. end (LastOffset), range-checked, SeekDontCheck or not *)
+Lemma seek_current_fresh : forall d whence f l,
+  in_i64 d -> valid_offsets f l -> seek_whence whence = SeekCurrent ->
+  seek FirstOffset d whence (OffsOk f l) =
+    (if (0 <=? d) && (f + d <=? l) then mk_seek (SeekOk (f + d)) (f + d) 2
+     else mk_seek (SeekErr ErrOffsetOutOfRange) FirstOffset 2) /\
+  seek LastOffset d whence (OffsOk f l) =
+    (if (d <=? 0) && (f <=? l + d) then mk_seek (SeekOk (l + d)) (l + d) 2
+     else mk_seek (SeekErr ErrOffsetOutOfRange) LastOffset 2).
+Proof.
+  intros d whence f l Hd Hv Hw.
+  assert (Hf : - ZM63 <= f + d < ZM64 /\ - ZM63 <= l + d < ZM64)
+    by (unfold in_i64, valid_offsets, ZM63, ZM64 in *; lia).
+  destruct Hf as [Hfd Hld].
+  unfold seek. change (Z.ldiff whence SeekDontCheck) with (seek_whence whence). rewrite Hw.
+  unfold read_offsets, is_sentinel, resolve_current.
+  unfold SeekStart, SeekAbsolute, SeekEnd, SeekCurrent, FirstOffset, LastOffset.
+  cbn [Z.eqb Pos.eqb orb andb negb].
+  destruct (Z.testbit whence 30); cbn [andb]; split.
+  1,3: etransitivity; [apply seek_check_wrap; assumption|];
+    replace (f <=? f + d) with (0 <=? d) by lia; reflexivity.
+  all: etransitivity; [apply seek_check_wrap; assumption|];
+    replace ((f <=? l + d) && (l + d <=? l)) with ((d <=? 0) && (f <=? l + d)) by lia;
+    reflexivity.
 Qed.
 
 (* any failure leaves c.offset untouched *)
@@ -92,7 +141,7 @@ Lemma seek_error_keeps_offset : forall cur off whence b,
   seek_is_ok (so_res (seek cur off whence b)) = false -> so_offset (seek cur off whence b) = cur.
 Proof.
   intros cur off whence b. unfold seek.
-  destruct (read_offsets b) as [[[f l] code] n].
+  destruct (read_offsets b) as [[[f l] code] n]. cbv zeta.
   repeat match goal with
          | |- context [if ?c then _ else _] => destruct c
          end; cbn [so_res so_offset seek_is_ok]; intros H; try reflexivity; discriminate H.
@@ -103,17 +152,13 @@ Lemma seek_ok_sets_offset : forall cur off whence b x,
   so_res (seek cur off whence b) = SeekOk x -> so_offset (seek cur off whence b) = x.
 Proof.
   intros cur off whence b x. unfold seek.
-  destruct (read_offsets b) as [[[f l] code] n].
-  destruct (negb _); [intros H; discriminate H|].
-  destruct (_ && _); [cbn [so_res so_offset]; intros H; injection H as <-; reflexivity|].
-  destruct (_ && _); [cbn [so_res so_offset]; intros H; injection H as <-; reflexivity|].
-  destruct (_ && (off =? cur)) eqn:E.
-  - apply andb_true_iff in E. destruct E as [_ E]. apply Z.eqb_eq in E. subst off.
-    cbn [so_res so_offset]. intros H; injection H as <-; reflexivity.
-  - repeat match goal with
+  destruct (read_offsets b) as [[[f l] code] n]. cbv zeta.
+  (* the unchanged-offset shortcut returns the argument and keeps c.offset: they are equal *)
+  destruct (Z.eqb_spec off cur) as [->|Hne]; [|rewrite andb_false_r];
+    repeat match goal with
            | |- context [if ?c then _ else _] => destruct c
            end; cbn [so_res so_offset]; intros H;
-      try discriminate H; injection H as <-; reflexivity.
+    try discriminate H; injection H as <-; reflexivity.
 Qed.
 
 (* a broker error on either list-offsets request is returned as is *)
@@ -121,18 +166,20 @@ Lemma seek_broker_error : forall cur off whence b f l code n,
   read_offsets b = (f, l, code, n) -> code <> 0 ->
   let w := seek_whence whence in
   (w = SeekStart \/ w = SeekAbsolute \/ w = SeekEnd \/ w = SeekCurrent) ->
-  seek_dont whence && ((w =? SeekAbsolute) || (w =? SeekCurrent)) = false ->
+  seek_unchecked whence cur = false ->
   (w =? SeekAbsolute) && (off =? cur) = false ->
   seek cur off whence b = mk_seek (SeekErr code) cur n.
 Proof.
   intros cur off whence b f l code n Hb Hcode w Hw Hdont Habs.
+  unfold seek_unchecked in Hdont. change (seek_whence whence) with w in Hdont.
   unfold seek. change (Z.ldiff whence SeekDontCheck) with w.
   change (Z.testbit whence 30) with (seek_dont whence).
   clearbody w. rewrite Hb, Habs.
   apply Z.eqb_neq in Hcode. rewrite Hcode.
   destruct (seek_dont whence); destruct Hw as [-> | [-> | [-> | ->]]];
     unfold SeekStart, SeekAbsolute, SeekEnd, SeekCurrent in *;
-    cbn [Z.eqb Pos.eqb orb andb negb] in *; try reflexivity; discriminate Hdont.
+    cbn [Z.eqb Pos.eqb orb andb negb] in *; try rewrite Hdont;
+    try reflexivity; discriminate Hdont.
 Qed.
 
 Lemma seek_bad_whence : forall cur off whence b,
@@ -149,8 +196,9 @@ Proof.
   reflexivity.
 Qed.
 
-(* DISCREPANCY 1: SeekAbsolute to the offset already held skips the range check *)
-Lemma seek_range_check_refuted : exists cur f l,
+(* the unchanged-offset shortcut: SeekAbsolute to the offset already held is answered
+   without asking the broker, hence not range-checked *)
+Lemma seek_unchanged_shortcut_example : exists cur f l,
   valid_offsets f l /\ ~ (f <= cur <= l) /\
   seek cur cur SeekAbsolute (OffsOk f l) = mk_seek (SeekOk cur) cur 0.
 Proof.
@@ -159,15 +207,6 @@ Proof.
   - lia.
   - vm_compute. reflexivity.
 Qed.
-
-(* DISCREPANCY 2: SeekCurrent is relative to the sentinel itself *)
-Lemma seek_current_sentinel_refuted :
-  conn_offset FirstOffset = (0, SeekStart) /\
-  seek FirstOffset 5 SeekCurrent (OffsOk 100 200) = mk_seek (SeekErr ErrOffsetOutOfRange) FirstOffset 2 /\
-  seek FirstOffset 5 SeekCurrent (OffsOk 0 200) = mk_seek (SeekOk 3) 3 2 /\
-  conn_offset LastOffset = (0, SeekEnd) /\
-  seek LastOffset (-5) SeekCurrent (OffsOk 100 200) = mk_seek (SeekErr ErrOffsetOutOfRange) LastOffset 2.
-Proof. repeat split; vm_compute; reflexivity. Qed.
 
 Lemma read_offset_exact : forall t p,
   read_offset_resp [(t, [p])] = if rp_error p =? 0 then ZOk (rp_offset p) else ZErr (rp_error p).
@@ -407,20 +446,15 @@ Proof.
   rewrite (zmap_fold_fresh oa_partition oa_offset) by exact Hnd. reflexivity.
 Qed.
 
-(* DISCREPANCY 3: the per-partition error code is dropped, the leaderless partition's
-   Leader is the zero Broker *)
-Lemma read_partitions_partition_error_refuted : exists r p,
-  md_topics r = [{| mt_error := 0; mt_name := [116%N]; mt_internal := false;
-                    mt_parts := [{| mp_error := 5; mp_index := 0; mp_leader := -1;
-                                    mp_replicas := [0]; mp_isr := []; mp_offline := [] |}] |}] /\
-  read_partitions false [116%N] r = PartsOk [p] /\ pt_error p = 0 /\ b_id (pt_leader p) = 0.
+(* every returned partition carries its own topic, id and error code, in order *)
+Lemma read_partitions_partition_errors : forall v6 ct r l,
+  read_partitions v6 ct r = PartsOk l ->
+  map (fun p => (pt_topic p, pt_id p, pt_error p)) l =
+  flat_map (fun t => map (fun p => (mt_name t, mp_index p, mp_error p)) (mt_parts t)) (md_topics r).
 Proof.
-  exists {| md_throttle := 0; md_brokers := []; md_cluster := []; md_controller := 0;
-            md_topics := [{| mt_error := 0; mt_name := [116%N]; mt_internal := false;
-                             mt_parts := [{| mp_error := 5; mp_index := 0; mp_leader := -1;
-                                             mp_replicas := [0]; mp_isr := [];
-                                             mp_offline := [] |}] |}] |}.
-  exists {| pt_topic := [116%N]; pt_id := 0; pt_leader := zero_broker;
-            pt_replicas := [zero_broker]; pt_isr := []; pt_offline := []; pt_error := 0 |}.
-  repeat split.
+  intros v6 ct r l H. rewrite read_partitions_exact in H.
+  destruct (find (rp_topic_fails ct) (md_topics r)); [discriminate H|].
+  injection H as <-.
+  induction (md_topics r) as [|t ts IH]; [reflexivity|].
+  cbn [flat_map]. rewrite map_app, IH, map_map. reflexivity.
 Qed.
